@@ -2,7 +2,7 @@
    weighted mean of Common/WMean.v; clipping; ownership frame properties. *)
 From Coq Require Import ZArith QArith Qminmax Qabs List Permutation Bool Lia Lqa Setoid Morphisms.
 From FV Require Import Common.ListX Common.Batch Common.CMonoid Common.NanQ Common.QVec Common.WMean
-  gen.Gen_tree_util Model.C07_Model.
+  gen.Gen_tree_util gen.Gen_aggregator Model.C07_Model.
 Import ListNotations.
 Local Open Scope Q_scope.
 
@@ -224,6 +224,21 @@ Lemma sum_single_pass l1 l2 :
   fold_left tree_sum_step (l1 ++ l2) tree_sum_init =
   fold_left tree_sum_step l2 (fold_left tree_sum_step l1 tree_sum_init).
 Proof. apply fold_left_app. Qed.
+
+(* ---- the norm: translated tree_l2_squared is the sum of squares ---- *)
+Lemma l2_squared_lift x : tree_l2_squared (vlift x) = Some (qsum (map (fun t => t * t) x)).
+Proof.
+  unfold tree_l2_squared, vlift. rewrite map_map. cbn [NanQ.mul NanQ.lift2].
+  induction x as [|t x IH]; [reflexivity|]. cbn [map NanQ.sum fold_right qsum].
+  change (fold_right NanQ.add NanQ.zero (map (fun x0 : Q => Some (x0 * x0)) x)) with (NanQ.sum (map (fun x0 : Q => Some (x0 * x0)) x)).
+  unfold NanQ.t in *. rewrite IH. reflexivity.
+Qed.
+
+Lemma l2_norm_spec n x : is_l2_norm n (vlift x) <-> (0 <= n /\ n * n == sumsq x).
+Proof.
+  unfold is_l2_norm. rewrite l2_squared_lift. cbn [NanQ.eq]. unfold sumsq.
+  split; intros [H1 H2]; (split; [exact H1|]); [symmetry; exact H2|symmetry; exact H2].
+Qed.
 
 (* ---- clipping ---- *)
 (* scale = where(global_norm > max_norm, max_norm / global_norm, 1) *)
